@@ -145,6 +145,7 @@ fn layer_b(cli: &Cli, rep: &mut Report) {
             low_quality: false,
             avoid_coincident: false,
             low_conf: rng.chance(0.15),
+            vary_nobj: false,
         };
         let h = HistOpts { len: if cli.small { 6 } else { 30 + rng.usize(50) }, lifecycle_ops: false, clear_wasted: false, auto_waste_ops: false, batches: false, empty_calls: false };
         let ops = gen_history(&mut rng, &w, &h);
